@@ -240,3 +240,27 @@ def fourier_symbol_1d(record, field_name: str, axis: int, theta: float) -> compl
             coef = complex(expr.coeff(acc))
             total += coef * np.exp(1j * theta * int(acc.offsets[axis]))
     return total
+
+
+def to_fraction_scalar(v):
+    """Scalar kernel argument -> Fraction (floats such as 1.0/3.0, 0.75 are rationalised like IR literals)."""
+    if isinstance(v, Fraction):
+        return v
+    if isinstance(v, (int, np.integer)):
+        return Fraction(int(v))
+    return Fraction(float(v)).limit_denominator(10**6)
+
+
+def run_exact(record, kwargs):
+    """Execute a kernel invocation whose arrays hold Fractions (object dtype), in place, cell by cell."""
+    arrays = {k: v for k, v in kwargs.items() if isinstance(v, np.ndarray)}
+    scalars = {k: to_fraction_scalar(v) for k, v in kwargs.items() if not isinstance(v, np.ndarray)}
+    written = record.written_fields()
+    cells = iteration_cells(record, arrays[written[0]].shape)
+    for cell in cells:
+        def access(name, offs, cell=cell):
+            return arrays[name][tuple(c + o for c, o in zip(cell, offs))]
+
+        res = eval_assignments_exact(record, access, scalars)
+        for fname, val in res.items():
+            arrays[fname][cell] = val
